@@ -54,15 +54,15 @@ func (x *c12exec) l(i int) *spec.ListWriter {
 	return &x.ls[len(x.ls)-1-i]
 }
 
-var validAny = []byte{7, 3}                                        // byte(7)
+var validAny = []byte{7, 3}                                   // byte(7)
 var validMsg = []byte{1, 5, 0x0b, 0, 0, 1, 9, 0, 3, 2, 6, 80} // {5: int32... } built below in init
 var c12ops []c12op
 var c12opIndex = map[string]int{}
 
-func e1(err error) (error, bool, []byte, bool)         { return err, true, nil, false }
-func e0() (error, bool, []byte, bool)                  { return nil, false, nil, false }
+func e1(err error) (error, bool, []byte, bool)           { return err, true, nil, false }
+func e0() (error, bool, []byte, bool)                    { return nil, false, nil, false }
 func eb(b []byte, err error) (error, bool, []byte, bool) { return err, true, b, true }
-func skip() (error, bool, []byte, bool)                { return errSkip, false, nil, false }
+func skip() (error, bool, []byte, bool)                  { return errSkip, false, nil, false }
 
 var errSkip = fmt.Errorf("skip")
 
@@ -298,7 +298,6 @@ func c12run(ops []int) (out c12outcome) {
 	}
 	return
 }
-
 
 func lastN(n, k int) []int {
 	var r []int
